@@ -54,6 +54,10 @@ func c14Corpus(c *Check) []c14Prog {
 		// two different files with identical bytes imported side by side (their names share one prefix)
 		c14Prog{"twin-files", map[string]string{"main.tsh": "import (\n\ta \"a/counter.tsh\"\n\tb \"b/counter.tsh\"\n)\n\nprint(a.Next(), a.Next(), b.Next())\n", "a/counter.tsh": "count := 0\nfunc Next() int {\n\tcount++\n\treturn count\n}\n", "b/counter.tsh": "count := 0\nfunc Next() int {\n\tcount++\n\treturn count\n}\n"}},
 		c14Prog{"twin-files-nested", map[string]string{"main.tsh": "import (\n\tx \"p/mod.tsh\"\n\ty \"q/r/mod.tsh\"\n)\n\nprint(x.Get(), y.Get())\n", "p/mod.tsh": "import u \"util.tsh\"\n\nfunc Get() int {\n\treturn u.One() + 1\n}\n", "p/util.tsh": "func One() int {\n\treturn 1\n}\n", "q/r/mod.tsh": "import u \"util.tsh\"\n\nfunc Get() int {\n\treturn u.One() + 1\n}\n", "q/r/util.tsh": "func One() int {\n\treturn 1\n}\n"}},
+		// two different imported files whose content hashes share the seven hex digits the import prefix is cut from
+		// (mined below): what one program's import got as prefix says nothing about the other's
+		c14Prog{"prefix-collision-a", map[string]string{"main.tsh": "import l \"lib.tsh\"\n\nprint(l.Greet(), l.Same())\n", "lib.tsh": c14CollidingLibs()[0]}},
+		c14Prog{"prefix-collision-b", map[string]string{"main.tsh": "import l \"lib.tsh\"\n\nprint(l.Count(), l.Same())\n", "lib.tsh": c14CollidingLibs()[1]}},
 		// programs that fail late, in the converter, after every kind of construct has been emitted (state
 		// built up during a failed call must not leak into the next call on the same object)
 		c14Prog{"multi-values", map[string]string{"main.tsh": c14Rich + "print(\"end\")\n"}},
@@ -69,6 +73,32 @@ func c14Corpus(c *Check) []c14Prog {
 		c14Prog{"fail-after-output", map[string]string{"main.tsh": "print(1)\nfunc f() int {\n\treturn 1\n}\nprint(f())\nx := \"s\" < \"t\"\n"}},
 	)
 	return progs
+}
+
+var c14Colliding []string
+
+// c14CollidingLibs mines two library files of different content whose SHA-256 digests agree in the first seven
+// hex digits (a birthday search over trailing comments, some 2^14 candidates per side).
+func c14CollidingLibs() []string {
+	if c14Colliding != nil {
+		return c14Colliding
+	}
+	a := "func Greet() string {\n\treturn \"hello\"\n}\nfunc Same() int {\n\treturn 1\n}\n"
+	b := "func Count() int {\n\treturn 42\n}\nfunc Same() int {\n\treturn 2\n}\n"
+	seen := map[string]string{}
+	for n := 0; n < 400000; n++ {
+		va := fmt.Sprintf("%s// a%d\n", a, n)
+		ha := shaOf(va)[:7]
+		seen[ha] = va
+		vb := fmt.Sprintf("%s// b%d\n", b, n)
+		if other, ok := seen[shaOf(vb)[:7]]; ok {
+			c14Colliding = []string{other, vb}
+			return c14Colliding
+		}
+	}
+	// no collision found (practically impossible): two unrelated files, the case then checks nothing special
+	c14Colliding = []string{a, b}
+	return c14Colliding
 }
 
 // c14Rich uses every stateful facility of transpiler and converters once: multi-value lists, helper
